@@ -10,14 +10,14 @@ hashes them (`final_attributes[name] = ...`), which would make the solver enumer
 import os
 
 from vp import reg as R
-from vp.symstr import fixed, over_class, py_over_class
+from vp.symstr import fixed, over_class, py_over_class, at_most, py_at_most
 from models import wiki_line_ref as ref
 
 from hed.errors.exceptions import HedFileError, HedExceptions
 from hed.schema.hed_schema import HedSchema
 from hed.schema.hed_schema_constants import HedSectionKey, HedKey, character_types
 from hed.schema.hed_schema_entry import HedSchemaEntry
-from hed.schema.schema_io import text_util
+from hed.schema.schema_io import text_util, wiki2schema
 from hed.schema.schema_io.schema2base import Schema2Base
 from hed.schema.schema_io.schema2wiki import Schema2Wiki
 from hed.schema.schema_io.schema2df import Schema2DF
@@ -124,11 +124,48 @@ def _kind():
 def _name_ok(name):
     if _kind() == "ph":
         return name == "#"
+    exact = R.env_int("VP_ML")                  # cells of the two-valued shapes are split by name length
+    if exact is not None and len(name) != exact:
+        return False
     return 1 <= len(name) <= R.M(2) and _name_text(name)
 
 
+_AZ = "abcdefghijklmnopqrstuvwxyz"
+
+
 def _desc_ok(desc):
-    return len(desc) <= R.env_int("VP_D", 3) and _desc_text(desc)
+    """VP_DA selects the description alphabet: the whole schema text class (default), 'az' = lower-case letters
+    and blank, 'mk' = lower-case letters, '>', '/' and at most one '<' (longer descriptions over fewer characters)"""
+    exact = R.env_int("VP_DL")
+    if exact is not None and len(desc) != exact:
+        return False
+    if len(desc) > R.env_int("VP_D", 3):
+        return False
+    da = os.environ.get("VP_DA", "text")
+    if da == "az":
+        return over_class(desc, _AZ + " ", False, trimmed=" ")
+    if da == "mk":
+        return over_class(desc, _AZ + "<>/", False) and at_most(desc, "<", 1)
+    return _desc_text(desc)
+
+
+def _KNOWN(fid, verdict):
+    if os.environ.get("T_HARDWIRE"):            # development switch: exclusion active without known_findings.json
+        return bool(verdict)
+    return R.known(fid, verdict)
+
+
+# ---- known findings (genuine defects kept out of the search so that the rest of each cell is still exhausted)
+def _kf_extend_here(desc):
+    """a description containing the words 'extend here': SchemaLoaderWiki._get_tag_name looks for that marker in
+    the WHOLE line and then reports an empty name, so the saved line cannot be loaded again"""
+    return "extend here" in desc
+
+
+def _kf_nowiki(desc):
+    """a description containing the text <nowiki> or </nowiki>: _remove_nowiki_tag_from_line deletes every such
+    token of the line, also inside the description"""
+    return "<nowiki>" in desc or "</nowiki>" in desc
 
 
 def _tracing():
@@ -137,6 +174,26 @@ def _tracing():
         return is_tracing()
     except Exception:  # noqa  (replay runs without CrossHair)
         return False
+
+
+class _NameMatch:
+    def __init__(self, text, end):
+        self._text = text
+        self.regs = ((0, end), (0, 0), (0, 0), (0, 0), (end, end))
+
+    def group(self, i):
+        if i != 2:
+            raise IndexError(i)
+        return self._text
+
+
+class _NameRe:
+    """stands in for wiki2schema.tag_name_re during symbolic runs (see line_roundtrip)"""
+    def __init__(self, g2, end):
+        self.g2, self.end = g2, end
+
+    def search(self, row):
+        return _NameMatch(row[self.g2[0]:self.g2[1]], self.end)
 
 
 _SCHEMA = HedSchema()      # only `_create_tag_entry` is called on it: entries are made, never added
@@ -157,6 +214,8 @@ def line_roundtrip(name: str, v1: str, v2: str, desc: str) -> bool:
     pre: _name_ok(name)
     pre: _vals_ok(v1, v2)
     pre: _desc_ok(desc)
+    pre: not _KNOWN("C05-desc-extend-here", _kf_extend_here(desc))
+    pre: not _KNOWN("C05-desc-nowiki", _kf_nowiki(desc))
     post: _
     """
     kind = _kind()
@@ -207,25 +266,36 @@ def line_roundtrip(name: str, v1: str, v2: str, desc: str) -> bool:
     # (b) the library's own reader, as `_split_lines_into_sections` + `_read_schema`/`_read_section` drive it
     rd = _loader()
     row2 = rd._remove_nowiki_tag_from_line(1, (row + "\n").strip())
+    stub = None
     if _tracing():
-        # `_get_tag_name` is kept out of the symbolic run (its pattern `(...|$)+` sends CrossHair's regex model
-        # into unbounded recursion): the name is the one written and its end is the writer's own offset (where
-        # the real function reports the first '{' / '[' or the end of the line).  Concrete replays of
-        # counterexamples run the real `_get_tag_name`.
-        if want.attributes or want.description is not None:
-            end = len(head) + (3 if kind == "ph" else 1)
+        # The reader's name pattern `(\\*+|'{3})(.*?)('{3})?\\s*([\\[\\{]|$)+` sends CrossHair's regex model into
+        # unbounded recursion, so during the SYMBOLIC run `tag_name_re.search` answers from the writer's own
+        # layout: group 2 = the text between the asterisks / quotes and the end of the name part, group 4 starts
+        # at the first '{' / '[' or at the end of the line.  The rest of `_get_tag_name` ('extend here' test,
+        # entity removal, strip) is the real code.  Concrete replays of counterexamples use the real pattern.
+        extras = bool(want.attributes) or want.description is not None
+        if kind == "ph":
+            g2 = (2, 5)
+        elif kind == "tag0":
+            g2 = (3, len(head) - 3)
         else:
-            end = len(row2)
-        rd._get_tag_name = lambda _row: (name, end)
+            g2 = (level, len(head))
+        stub = _NameRe(g2, (len(head) + (3 if kind == "ph" else 1)) if extras else len(row2))
     if kind == "tag0":
         if not row2.startswith("'''"):
             return False
     elif row2.startswith("'''") or rd._get_tag_level(row2) != level:
         return False
-    if key == HedSectionKey.Tags:
-        back = rd._create_tag_entry(parents, 1, row2)
-    else:
-        back = rd._create_entry(1, row2, key)
+    real_re = wiki2schema.tag_name_re
+    try:
+        if stub is not None:
+            wiki2schema.tag_name_re = stub
+        if key == HedSectionKey.Tags:
+            back = rd._create_tag_entry(parents, 1, row2)
+        else:
+            back = rd._create_entry(1, row2, key)
+    finally:
+        wiki2schema.tag_name_re = real_re
     if back is None or rd.fatal_errors:
         return False
     if back.name != long_name:
@@ -372,7 +442,12 @@ def selfcheck_classes(s: str) -> bool:
         return bool(over_class(s, _TEXT_ASCII, True, trimmed=" ")) == py_over_class(s, _TEXT_ASCII, True, trimmed=" ")
     if k == 3:
         return bool(over_class(s, _HDR_ASCII, True)) == py_over_class(s, _HDR_ASCII, True)
-    return bool(over_class(s, _LETTERS, False)) == py_over_class(s, _LETTERS, False)
+    if k == 4:
+        return bool(over_class(s, _LETTERS, False)) == py_over_class(s, _LETTERS, False)
+    if k == 5:
+        return bool(over_class(s, _AZ + " ", False, trimmed=" ")) == py_over_class(s, _AZ + " ", False, trimmed=" ")
+    return (bool(over_class(s, _AZ + "<>/", False)) == py_over_class(s, _AZ + "<>/", False)
+            and bool(at_most(s, "<", 1)) == py_at_most(s, "<", 1))
 
 
 # ---------------------------------------------------------------- registry
@@ -441,18 +516,28 @@ def _attr_cells(d):
             _c("LV", 3 + d, strip=1), _c("L", 4 + d, strip=1), _c("V", 4 + d, w="df"), _c("LV", 3 + d, strip=1, w="df")]
 
 
-def _line_cells(m, d, n, kinds):
+def _line_cells(m, d, n, kinds, n2=None):
+    n2 = n if n2 is None else n2                 # value bound of the cells with two symbolic values
     cells = []
     for k in kinds:
         cells.append(_c("", n, VP_KIND=k, VP_M=m, VP_D=d))
         cells.append(_c("V", n, VP_KIND=k, VP_M=m, VP_D=d))
-    for sh in ("T", "TV", "VT", "VV"):
+    for sh in ("T", "TV", "VT"):
         cells.append(_c(sh, n, VP_KIND="vc", VP_M=m, VP_D=d))
     cells.append(_c("TV", n, VP_KIND="tag1", VP_M=m, VP_D=d))
     cells.append(_c("TV", n, VP_KIND="ph", VP_M=m, VP_D=d))
-    cells.append(_c("LV", n, VP_KIND="tag1", VP_M=m, VP_D=d))
-    cells.append(_c("LV", n, strip=1, VP_KIND="tag1", VP_M=m, VP_D=d))
     cells.append(_c("L", n, strip=1, VP_KIND="unit", VP_M=m, VP_D=d))
+    for ml in range(1, m + 1):                   # two symbolic values: one cell per name length
+        cells.append(_c("VV", n2, VP_KIND="vc", VP_M=m, VP_D=d, VP_ML=ml))
+        cells.append(_c("LV", n2, VP_KIND="tag1", VP_M=m, VP_D=d, VP_ML=ml))
+        cells.append(_c("LV", n2, strip=1, VP_KIND="tag1", VP_M=m, VP_D=d, VP_ML=ml))
+    return cells
+
+
+def _word_cells(az_d, az_kinds, mk_lengths):
+    """longer descriptions over fewer characters (the solver finds whole words the reader treats specially)"""
+    cells = [_c("", 1, VP_KIND=k, VP_M=1, VP_D=az_d, VP_DA="az") for k in az_kinds]
+    cells += [_c("", 1, VP_KIND="vc", VP_M=1, VP_D=dl, VP_DL=dl, VP_DA="mk") for dl in mk_lengths]
     return cells
 
 
@@ -487,8 +572,8 @@ HARNESSES = [
                      bound="1-2 attributes (boolean / valued / inLibrary, both writer settings, MediaWiki and TSV "
                            "writer); one value <= 5 chars, with a second attribute <= 4, two values <= 3 each; "
                            "values = comma lists over " + _CLASSES),
-        thorough=R.tier(cells=_attr_cells(1), timeout=2400, path_timeout=120,
-                        bound="as quick with every value one character longer (6 / 5 / 4+4)"),
+        thorough=R.tier(cells=_attr_cells(2), timeout=2400, path_timeout=120,
+                        bound="as quick with every value two characters longer (7 / 6 / 5+5)"),
         what="Schema2Base/Schema2DF._format_tag_attributes then text_util.parse_attribute_string: the attribute "
              "text lists exactly the original items (independent reading) and parses back to the same attributes "
              "(library's _compare_attributes_no_order and a hash-free comparison); inLibrary, and only it, is "
@@ -496,12 +581,17 @@ HARNESSES = [
         oracle="models/wiki_line_ref.py (pieces / expected_pieces / same_attributes)",
         stubs=[_A_WS, _A_NAMES, _STUB_REPR], outside=_OUTSIDE),
     R.H("line_roundtrip", _LINE_T,
-        quick=R.tier(cells=_line_cells(2, 2, 2, ["vc", "unit", "tag0", "tag1", "tag3", "ph"]), timeout=600,
-                     path_timeout=60,
-                     bound="name <= 2 chars, description <= 2 chars, attribute values <= 2 chars; " + _CLASSES),
-        thorough=R.tier(cells=_line_cells(3, 3, 3, ["vc", "unit", "tag0", "tag1", "tag2", "tag3", "ph"]),
-                        timeout=3600, path_timeout=120,
-                        bound="name <= 3 chars, description <= 3 chars, attribute values <= 3 chars"),
+        quick=R.tier(cells=_line_cells(2, 2, 2, ["vc", "unit", "tag0", "tag1", "tag3", "ph"])
+                     + _word_cells(12, ["tag1"], [8]), timeout=600, path_timeout=60,
+                     bound="name <= 2 chars, description <= 2 chars, attribute values <= 2 chars; " + _CLASSES +
+                           "; plus 1-char name, no attributes and a description <= 12 chars over [a-z blank], or "
+                           "exactly 8 chars over [a-z > /] with at most one '<'"),
+        thorough=R.tier(cells=_line_cells(3, 3, 3, ["vc", "unit", "tag0", "tag1", "tag2", "tag3", "ph"], n2=2)
+                        + _word_cells(16, ["tag1", "vc", "ph"], [6, 7, 8, 9]), timeout=3600, path_timeout=120,
+                        bound="name <= 3 chars, description <= 3 chars, attribute values <= 3 chars (<= 2 each when two "
+                              "attributes carry values); plus "
+                              "descriptions <= 16 chars over [a-z blank] and of 6-9 chars over [a-z > /] with at "
+                              "most one '<'"),
         what=_LINE_WHAT, oracle="models/wiki_line_ref.py (parse_line: grammar of a schema line written from the "
                                 "format description) + the library's own entry equality",
         stubs=[_A_WS, _A_NAMES, _STUB_NAME, _STUB_REPR, _STUB_ENTRY], outside=_OUTSIDE),
@@ -523,9 +613,9 @@ HARNESSES = [
         oracle="models/wiki_line_ref.py (header_pairs)", stubs=[_STUB_REPR, "loader object created with __new__"],
         outside=_OUTSIDE + "; header values containing a double quote or a line break"),
     R.H("save_refusal", _REF_T,
-        quick=R.tier(cells=[{"VP_N": 4}], timeout=400, path_timeout=60, bound="library attribute: any text <= 4 chars"),
-        thorough=R.tier(cells=[{"VP_N": 7}], timeout=2400, path_timeout=120,
-                        bound="library attribute: any text <= 7 chars"),
+        quick=R.tier(cells=[{"VP_N": 5}], timeout=400, path_timeout=60, bound="library attribute: any text <= 5 chars"),
+        thorough=R.tier(cells=[{"VP_N": 8}], timeout=2400, path_timeout=120,
+                        bound="library attribute: any text <= 8 chars"),
         what="HedSchema.can_save() is False iff the library attribute contains a comma; then Schema2Wiki/Schema2XML/"
              "Schema2DF.process_schema and the six public get_as_*/save_as_* entry points raise HedFileError "
              "SCHEMA_LIBRARY_INVALID before writing; otherwise Schema2Wiki.process_schema writes the schema",
@@ -546,9 +636,9 @@ HARNESSES = [
         outside=_OUTSIDE + "; attribute names with digits or punctuation (the schema rules would allow them for a "
                            "newly defined attribute, the MediaWiki reader does not: see report)"),
     R.H("selfcheck_classes", [],
-        quick=R.tier(cells=R.int_cells("VP_K", 0, 4), env={"VP_N": 3}, timeout=400, path_timeout=60,
+        quick=R.tier(cells=R.int_cells("VP_K", 0, 6), env={"VP_N": 3}, timeout=400, path_timeout=60,
                      bound="every string <= 3 chars"),
-        thorough=R.tier(cells=R.int_cells("VP_K", 0, 4), env={"VP_N": 4}, timeout=2400, path_timeout=120,
+        thorough=R.tier(cells=R.int_cells("VP_K", 0, 6), env={"VP_N": 4}, timeout=2400, path_timeout=120,
                         bound="every string <= 4 chars"),
         what="the single-term class preconditions of vp/symstr.py equal the plain Python predicates "
              "(checks the harness's own helper, no hed-python code)", oracle="py_over_class",
